@@ -26,6 +26,8 @@ pub struct StatsSnap {
     pub chunks: Vec<ChunkSnap>,
     /// chunk_start of every chunk in big_to_small() order
     pub b2s: Vec<usize>,
+    /// the chunk list walked from the current chunk: (iter_prev + self + iter_next, prev()/next() links)
+    pub walk: Option<(Vec<usize>, Vec<usize>)>,
     /// index of the current chunk in `chunks`
     pub cur: Option<usize>,
     pub count: usize,
